@@ -487,7 +487,7 @@ class Interp:
                             acc = acc + lv[i][k] * rv[k][j]
                         out[i][j] = acc
                 return lt, out
-            if op in ("+", "-"):
+            if op in ("+", "-", "%", "&&", "||"):
                 return lt, [[self.scalar_op(op, c, a, b) for a, b in zip(r1, r2)] for r1, r2 in zip(lv, rv)]
         if A.is_mat(lt) and A.is_vec(rt) and op == "*":
             n = A.mat_n(lt)
